@@ -24,8 +24,8 @@ MANIFEST = {
     'technique': 'deductive: relational lemmas and stage VCs over the contracts of the real stage functions (re-run from the current source), z3/cvc5; '
                  'metamorphic stand-in on the real pipeline in four representations (rotated cell, translated origin through the faces, permuted atoms, permuted sites)',
 }
-UNITS = ['unit_geometry', 'unit_stage_vcs', 'unit_stage_contracts_a', 'unit_stage_contracts_b', 'unit_stage_contracts_c']
-BOUNDED = ['bounded_metamorphic', 'bounded_purity']
+UNITS = ['unit_geometry', 'unit_stage_vcs', 'unit_stage_contracts_a', 'unit_stage_contracts_b', 'unit_stage_contracts_c', 'unit_stage_contracts_d', 'unit_plumbing']
+BOUNDED = ['bounded_metamorphic', 'bounded_purity', 'bounded_plumbing']
 META = {'clauses': {'rotation': 'P (lemmas + stage VC) + B', 'translation through faces': 'P + B', 'atom / site permutation': 'P (states) + B (pipeline)', 'grids rolled by the shift': 'P (bin lemma + count lemma) + B',
                     'path costs': 'B only'},
         'not_decided': ['optimal-path cost invariance (graph isomorphism under rolling): metamorphic stand-in only', 'float-level equality under rotation (A-REAL)']}
@@ -316,6 +316,11 @@ def _analyse(traj, sites, res=None):
     from gemdat.rdf import radial_distribution_between_species
     r = radial_distribution_between_species(trajectory=traj, specie_1='Li', specie_2='O', max_dist=3.0, resolution=0.5)
     out['rdf'] = np.asarray(r.y)
+    # per-state radial distributions: keyed by state names built from the site LABELS, so independent of the order of the sites
+    rd = tr.radial_distribution(floating_specie='Li', max_dist=3.0, resolution=0.5)
+    flat = {f'{k}|{x.label}': np.asarray(x.y) for k, c_ in rd.items() for x in c_ if not k.startswith('~>') and np.asarray(x.y).sum() > 0}
+    out['rdf states'] = sorted(flat)
+    out['rdf per state'] = np.array([flat[k] for k in sorted(flat)]) if flat else np.zeros((0, 1))
     m = traj.filter('Li').metrics()
     out['tracer'] = float(m.tracer_diffusivity(dimensions=3))
     out['msd'] = np.asarray(traj.filter('Li').mean_squared_displacement())
@@ -384,7 +389,7 @@ def replay_metamorphic(inputs):
         same(rel(base[key]), o.get(key), f'atom permutation: {key} are not the relabelled rows')
     same(base['states(per-label radii)'][:, [int(np.where(np.array(li) == perm[li][k])[0][0]) for k in range(len(li))]], o['states(per-label radii)'],
          'atom permutation: states (per-label radii) are not the permuted columns')
-    compare(o, 'atom permutation', keys=['matrix', 'tmatrix', 'jump_diffusivity', 'rdf', 'tracer', 'occupancy'] + [k for k in base if k.startswith('n_') or k.startswith('occupancy_by') or k.startswith('atom_loc')])
+    compare(o, 'atom permutation', keys=['matrix', 'tmatrix', 'jump_diffusivity', 'rdf', 'tracer', 'occupancy', 'rdf states', 'rdf per state'] + [k for k in base if k.startswith('n_') or k.startswith('occupancy_by') or k.startswith('atom_loc')])
     # (d) permutation of the sites
     sg = rng.permutation(len(sp))  # sites'[j] = sites[sg[j]]
     tau = np.argsort(sg)
@@ -405,7 +410,7 @@ def replay_metamorphic(inputs):
     # known finding C05-nosite-fold)
     keep_ = [j_ for j_ in range(len(sg)) if j_ != len(sg) - 1 and sg[j_] != len(sg) - 1]
     same(base['tmatrix'][np.ix_(sg[keep_], sg[keep_])], o['tmatrix'][np.ix_(keep_, keep_)], 'site permutation: transition matrix is not the permuted matrix')
-    compare(o, 'site permutation', keys=['jump_diffusivity', 'rdf', 'tracer'] + [k for k in base if k.startswith('n_') or k.startswith('occupancy_by') or k.startswith('atom_loc')])
+    compare(o, 'site permutation', keys=['jump_diffusivity', 'rdf', 'tracer', 'rdf states', 'rdf per state'] + [k for k in base if k.startswith('n_') or k.startswith('occupancy_by') or k.startswith('atom_loc')])
     # (e) grids: a shift by whole voxels rolls the density volume and the free energy; optimal path costs are unchanged
     vol = traj.filter('Li').to_volume(resolution=float(inputs.get('resolution', 0.9)))
     dims = np.array(vol.data.shape)
@@ -522,6 +527,32 @@ def replay_metamorphic(inputs):
             if back != j0:
                 bad.append(f'jumps (residence {m_}) of the atom-permuted histories are not the relabelled jumps: states={stt.T.tolist()} inner={inn.T.tolist()} perm={pm.tolist()}')
                 break
+    # (h) occupancy bookkeeping of histories in which no atom is ever between sites (no NOSITE entry), under every rotation of the site list
+    from verif.native.synth import make_transitions
+    S_ = 4
+    labs_ = ['A', 'B', 'A', 'C']
+    hst = np.zeros((20, 2), dtype=int)
+    cur_ = [0, 2]
+    for t_ in range(20):
+        for a_ in range(2):
+            if rng.random() < 0.3:
+                new_ = int(rng.integers(0, S_))
+                if new_ != cur_[1 - a_]:
+                    cur_[a_] = new_
+            hst[t_, a_] = cur_[a_]
+    for shift_ in range(S_):
+        sg_ = [(j_ + shift_) % S_ for j_ in range(S_)]  # sites'[j] = sites[sg[j]]
+        tau_ = np.argsort(sg_)
+        trp = make_transitions(tau_[hst], n_sites=S_, labels=[labs_[k_] for k_ in sg_])
+        occ_ = [float(x_.species.num_atoms) for x_ in trp.occupancy()]
+        exp_occ = [float((hst == sg_[j_]).sum()) / len(hst) for j_ in range(S_)]
+        if not np.allclose(occ_, exp_occ, atol=1e-12):
+            bad.append(f'history without NOSITE entries, sites listed from site {shift_} on: occupancies {occ_}, atom-frame counts give {exp_occ}')
+        al_ = trp.atom_locations()
+        for lab_ in set(labs_):
+            e_ = sum(float((hst == k_).sum()) for k_ in range(S_) if labs_[k_] == lab_) / len(hst) / hst.shape[1]
+            if abs(al_.get(lab_, 0.0) - e_) > 1e-12:
+                bad.append(f'history without NOSITE entries, sites listed from site {shift_} on: atom_locations[{lab_}] = {al_.get(lab_)}, expected {e_}')
     return {'reproduced': bool(bad), 'detail': f'seed={seed} lattice={np.round(lat.parameters, 2).tolist()}: ' + '; '.join(bad[:4])}
 
 
@@ -556,3 +587,22 @@ from verif.native.purity import make_bounded as _make_purity  # noqa: E402
 from verif.props.purity_reg import REG as _PURITY_REG  # noqa: E402
 PURITY = _PURITY_REG['C07']
 bounded_purity = _make_purity('C07', PURITY)
+
+
+def unit_stage_contracts_d(tier):
+    """Order-independence of the label bookkeeping rests on the contracts of Transitions.occupancy (C05: site i gets Count(states == i)/frames,
+    whatever the other sites are) and of _uniqify_labels (C11: a site's code depends on its label only): re-discharged here."""
+    from verif.props import c05, c11
+    from verif.props.common import merge_units
+    return merge_units('C07.stage_contracts_d', [c05.unit_occupancy(tier), c11.unit_uniqify(tier)])
+
+
+# plumbing around the anchored functions: forwarding contracts of the public wrappers, no state shared between calls or objects
+from verif.props import plumbing as _plumbing  # noqa: E402
+
+
+def unit_plumbing(tier):
+    return _plumbing.unit_plumbing(PROPERTY)
+
+
+bounded_plumbing = _plumbing.make_bounded(PROPERTY)
